@@ -386,7 +386,7 @@ class Check(BaseCheck):
     def call(self, fname, objs, ctx):
         return getattr(fp.ops, fname)(*objs, ctx=ctx)
 
-    def judge(self, r, fname, args, forms, family, params, mode, ovf, ctx, outs, exact_zero):
+    def judge(self, r, fname, args, forms, family, params, mode, ovf, ctx, outs):
         """one call of the implementation against the admissible outcomes"""
         r.count('evaluations')
         r.count('transitions')
@@ -449,7 +449,7 @@ class Check(BaseCheck):
                     outs = R.round_model(spec, X.fin(sq), mode, ovf)
                 if all(o[0] == 'ERR' or o[1] for o in outs):
                     r.count('nontrivial')
-                self.judge(r, fname, args, forms, family, params, mode, ovf, ctx, outs, x.is_exact and x.value == 0)
+                self.judge(r, fname, args, forms, family, params, mode, ovf, ctx, outs)
 
     def build_all(self, cfgs):
         built = {}
@@ -499,7 +499,7 @@ class Check(BaseCheck):
         r.count('states')
         case = {'fn': fname, 'args': [str(a) for a in args], 'forms': list(forms), 'family': family,
                 'params': {a: str(b) for a, b in params.items()}, 'mode': mode, 'overflow': 'OVERFLOW', 'k': k}
-        sig = {'fn': fname, 'group': _group(fname), 'family': family, 'arm': f'stochastic'}
+        sig = {'fn': fname, 'group': _group(fname), 'family': family, 'arm': 'stochastic'}
 
         def bad(kind, detail):
             s = dict(sig)
@@ -649,7 +649,7 @@ class Check(BaseCheck):
             outs = round_real(spec, x, mode, ovf)
             if outs is None:
                 return False, f'{x!r}: inconclusive at {E.MAX_PREC} bits'
-            self.judge(r, fname, args, forms, case['family'], P, mode, ovf, ctx, outs, False)
+            self.judge(r, fname, args, forms, case['family'], P, mode, ovf, ctx, outs)
         if r.violations:
             return True, '\n'.join(v.detail for v in r.violations) + f'\n(true result: {x.kind}' + \
                 (f' = {fx(X.fin(x.value))}' if x.is_exact else f', decided with enclosures of up to {x.max_prec_used} bits') + ')'
